@@ -31,6 +31,13 @@ for t in iters args ifexp unifexp assignif withtmp flip chain kwargs tidy alias 
   echo "   $t: ${bad:-all silent}"
   rm -rf $S/wt
 done
+for t in "last" "middle" "first ret" "last ret"; do
+  tools/extract_helpers.py $S/wt $t > /dev/null 2>&1
+  bad=""
+  for p in $P; do DAWGIE_SRC=$S/wt/Python/dawgie VERIF_NO_EVIDENCE=1 ./check C$p quick > $S/wt.out 2>&1; rc=$?; [ $rc -ne 0 ] && bad="$bad C$p($rc)"; done
+  echo "   extract_helpers $t: ${bad:-all silent}"
+  rm -rf $S/wt
+done
 if [ "$1" != "--no-thorough" ]; then
   echo "== 5. thorough"
   for grp in "01 02 03 04 05 06 07 08 09 10" "11 12 13 14 15 16 17 18 19 20"; do
